@@ -700,8 +700,10 @@ Section Model.
                     | _, _ => with_ps h s'
                     end
                 | FsRaise e =>
-                    (* except BrokenPipeError: return True / except OSError: return True *)
-                    if is_OSError e then with_mode h Closed else escape h e
+                    (* except ssl.SSLWantWriteError: return False (3a87c83) /
+                       except BrokenPipeError: return True / except OSError: return True *)
+                    if is_SSLWantWriteError e then h
+                    else if is_OSError e then with_mode h Closed else escape h e
                 end
             end
         | UpstreamWrite o =>
@@ -831,13 +833,12 @@ Definition is_FlushClient (ev : event) : bool := match ev with FlushClient => tr
 
 (* events that must not disturb an exchange: data, flushes, short writes and every "would block, try
    again later" answer of a non-blocking socket (plain: BlockingIOError on send; TLS: SSLWantWriteError on
-   the upstream send, SSLWantReadError on either recv) *)
+   either send, SSLWantReadError on either recv) *)
 Definition benign (ev : event) : Prop :=
   match ev with
   | ClientData _ _ | UpstreamData _ _ | FlushClient | FlushUpstream => True
   | ClientWrite (SendOk _) | UpstreamWrite (SendOk _) => True
-  | ClientWrite (SendRaise e) => e = BlockingIOError_
-  | UpstreamWrite (SendRaise e) => e = BlockingIOError_ \/ e = SSLWantWriteError
+  | ClientWrite (SendRaise e) | UpstreamWrite (SendRaise e) => e = BlockingIOError_ \/ e = SSLWantWriteError
   | ClientRecvRaise e | UpstreamRecvRaise e => e = SSLWantReadError
   | UpstreamEOF => False
   end.
